@@ -836,7 +836,7 @@ pub fn plan(prop: &str, thorough: bool) -> Vec<Case> {
         "C03" => {
             // a failing file somewhere in the graph, unsaturated and single-thread pools: the run must still end
             for g in graphs.iter().filter(|g| g.n >= 2 && (thorough || g.canonical() == g.adj)).chain(g4.iter().filter(|_| true)) {
-                if !thorough && g.n == 4 && g.edges().len() > 3 {
+                if g.n == 4 && g.edges().len() > if thorough { 4 } else { 3 } {
                     continue;
                 }
                 for k in 0..g.n {
@@ -1022,7 +1022,9 @@ fn run_case(prop: &str, rep: &Report, case0: &Case, ci: usize) {
             rep.add_in("cases_by_files", &case.proj.g.n.to_string(), 1);
             rep.add_in("schedules_by_files", &case.proj.g.n.to_string(), runs as u64);
             // determinism self-test: the canonical schedule twice
-            if let Some(f0) = &first {
+            // (with a saturated pool the order in which the coordinator submits tasks -- HashSet / readdir order --
+            // decides which task gets the single worker: not a choice of the schedule, so no self-test there)
+            if let Some(f0) = first.as_ref().filter(|_| case.threads == 0) {
                 let again = env.run_one(&case, &[], Explore::Reduced);
                 // spawn order ("S" events) follows HashSet / readdir order and is not a choice of the schedule
                 let exec = |t: &Vec<String>| t.iter().filter(|e| !e.starts_with("S ")).cloned().collect::<Vec<_>>();
@@ -1095,7 +1097,9 @@ fn model_phase(prop: &str, rep: &Report) {
                 let g = Graph { n, adj };
                 graphs += 1;
                 let mut sels: Vec<(Vec<usize>, bool)> = vec![(vec![], true)];
-                if thorough || adj.count_ones() <= 3 {
+                // C05 (thorough) takes the by-name selection on every graph; C03 shares the wall-clock budget with its
+                // failing-file dimension and takes it up to 10 edges (the directory selection is on every graph)
+                if (thorough && (prop != "C03" || adj.count_ones() <= 10)) || adj.count_ones() <= 3 {
                     sels.push((vec![0], false));
                 }
                 for (roots, scan) in sels {
@@ -1130,6 +1134,7 @@ fn model_phase(prop: &str, rep: &Report) {
                 }
             }
         }
+        rep.set("model_selections", json!(if !thorough { "directory input on graphs with <= 4 edges; first file by name with <= 3 edges" } else if prop == "C03" { "directory input on all 2^25 labelled 5-file digraphs; first file by name on those with <= 10 edges" } else { "directory input and first file by name on all 2^25 labelled 5-file digraphs" }));
         rep.add("model_5_file_graphs", graphs);
         rep.add("model_states", stats.states as u64);
         rep.add("model_transitions", stats.transitions as u64);
